@@ -34,6 +34,7 @@ type emitter struct {
 	sample    []sampled
 	seen      int
 	replaying bool
+	soaking   bool
 }
 
 func hx(b []byte) string {
@@ -102,6 +103,15 @@ func (e *emitter) op(name string, args ...string) string {
 				break
 			}
 		}
+		// one result in five also stays under watch for the whole run (see soak): storage recycled after thousands of calls
+		if !e.soaking {
+			for _, k := range keptCur {
+				longSeen++
+				if longSeen%5 == 0 && len(keptLong) < 2048 {
+					keptLong = append(keptLong, k)
+				}
+			}
+		}
 		// results of the last few ops stay under watch (the call that reuses the storage may come several ops later)
 		keptPrev = append(keptPrev, keptCur...)
 		if len(keptPrev) > keepWindow {
@@ -123,6 +133,44 @@ func (e *emitter) op(name string, args ...string) string {
 	}
 	return res
 }
+
+// soak: results handed out early in the run must survive MANY later calls (a ring of a few thousand slots, a pool that grows
+// and recycles). The sampled ops are executed again and again without output — for at most 3 s, 60 rounds or 30 000 calls — and
+// then the results kept for the long term (keptLong, one in five of all retained results, at most 2048) are read again,
+// by putting them under the watch of one last repeated op: a change is reported on that line as ALIASED:<op that handed it out>.
+func (e *emitter) soak() {
+	if len(e.sample) == 0 || len(keptLong) == 0 {
+		return
+	}
+	e.soaking = true
+	t0 := time.Now()
+	calls := 0
+	for round := 0; round < 60 && time.Since(t0) < 3*time.Second && calls < 30000; round++ {
+		for _, sm := range e.sample {
+			f := ops[sm.name]
+			curOpName = sm.name
+			keptCur, constArgs = nil, nil
+			guardT(opLimit(sm.name), func() string { return f(sm.args) })
+			inputBufs = nil
+			calls++
+		}
+	}
+	keptCur = nil
+	keptPrev = append(keptLong, keptPrev...)
+	keptLong = nil
+	e.replaying = true
+	// every changed long-term result is reported (one per repeated op line)
+	for i := 0; i < len(e.sample) && i < 8; i++ {
+		e.op(e.sample[i].name, e.sample[i].args...)
+	}
+	e.replaying = false
+	e.soaking = false
+}
+
+var (
+	keptLong []kept
+	longSeen int
+)
 
 type sampled struct {
 	name string
@@ -308,6 +356,7 @@ func main() {
 	f(e)
 	if dom != "run" {
 		e.replaySample()
+		e.soak()
 	}
 	for _, st := range statsOut() {
 		fmt.Fprintf(w, "#stat %s\n", st)
